@@ -1,17 +1,23 @@
 mod util;
+mod alloc;
+#[global_allocator]
+static GLOBAL: alloc::CountingAlloc = alloc::CountingAlloc;
 mod backend;
 mod c19;
 mod c02;
+mod c11;
 mod c04;
 mod c18;
 mod c17;
 mod c13;
 mod c06;
 mod c03;
+mod c01;
 mod c05;
 mod c15;
 mod c08;
 mod c07;
+mod c10;
 mod c16;
 mod c12;
 
@@ -21,16 +27,19 @@ fn main() {
 	match args.prop.as_str() {
 		"C19" => c19::run(&args),
 		"C02" => c02::run(&args),
+		"C11" => c11::run(&args),
 		"C04" => c04::run(&args),
 		"C18" => c18::run(&args),
 		"C17" => c17::run(&args),
 		"C13" => c13::run(&args),
 		"C06" => c06::run(&args),
 		"C03" => c03::run(&args),
+		"C01" => c01::run(&args),
 		"C05" => c05::run(&args),
 		"C15" => c15::run(&args),
 		"C08" => c08::run(&args),
 		"C07" => c07::run(&args),
+		"C10" => c10::run(&args),
 		"C16" => c16::run(&args),
 		"C12" => c12::run(&args),
 		p => {
